@@ -254,3 +254,201 @@ theorem pass_removes_own (T : Tables) (r : Re) (tok : List Nat) (th tl : Nat) (t
     cases h1
 
 end Mv.Regex
+
+/-!
+  ## part 5: patterns that begin and end with `\b` never create a boundary; the multi-pass induction
+-/
+namespace Mv.Regex
+
+/-- syntactically begins with `\b` -/
+def startsB : Re → Bool
+  | .wordB => true
+  | .cat a _ => startsB a
+  | .alt a b => startsB a && startsB b
+  | _ => false
+
+/-- syntactically ends with `\b` -/
+def endsB : Re → Bool
+  | .wordB => true
+  | .cat _ b => endsB b
+  | .alt a b => endsB a && endsB b
+  | _ => false
+
+theorem L_startsB (T : Tables) (r : Re) : ∀ lw w rw, L T r lw w rw → startsB r = true →
+    (lw != firstW T w rw) = true := by
+  induction r with
+  | eps => intro _ _ _ _ h; cases h
+  | cls k => intro _ _ _ _ h; cases h
+  | wordB => intro lw w rw h _; obtain ⟨rfl, hb⟩ := h; exact hb
+  | cat a b iha _ =>
+    intro lw w rw h hs
+    obtain ⟨u, v, rfl, ha, _⟩ := h
+    rw [firstW_append]
+    exact iha _ _ _ ha hs
+  | alt a b iha ihb =>
+    intro lw w rw h hs
+    simp only [startsB, Bool.and_eq_true] at hs
+    cases h with
+    | inl h1 => exact iha _ _ _ h1 hs.1
+    | inr h1 => exact ihb _ _ _ h1 hs.2
+  | rep a lo hi _ => intro _ _ _ _ h; cases h
+
+theorem L_endsB (T : Tables) (r : Re) : ∀ lw w rw, L T r lw w rw → endsB r = true →
+    (lastW T w lw != rw) = true := by
+  induction r with
+  | eps => intro _ _ _ _ h; cases h
+  | cls k => intro _ _ _ _ h; cases h
+  | wordB => intro lw w rw h _; obtain ⟨rfl, hb⟩ := h; exact hb
+  | cat a b _ ihb =>
+    intro lw w rw h hs
+    obtain ⟨u, v, rfl, _, hb⟩ := h
+    rw [lastW_append]
+    exact ihb _ _ _ hb hs
+  | alt a b iha ihb =>
+    intro lw w rw h hs
+    simp only [endsB, Bool.and_eq_true] at hs
+    cases h with
+    | inl h1 => exact iha _ _ _ h1 hs.1
+    | inr h1 => exact ihb _ _ _ h1 hs.2
+  | rep a lo hi _ => intro _ _ _ _ h; cases h
+
+theorem not_and_of_bne {a b : Bool} (h : (a != b) = true) : (!(a && b)) = true := by
+  cases a <;> cases b <;> simp_all
+
+/-- a pass whose pattern begins and ends with `\b` never creates a word boundary -/
+theorem passSafeGo_of_anchored (T : Tables) (r : Re) (hr : r.nullable = false)
+    (hs : startsB r = true) (he : endsB r = true) :
+    ∀ (n : Nat) (s : List Nat), s.length ≤ n → ∀ p, passSafeGo T r p s 0 = true := by
+  intro n
+  induction n with
+  | zero =>
+    intro s hlen p
+    have : s = [] := List.eq_nil_of_length_eq_zero (by omega)
+    subst this
+    rfl
+  | succ n ih =>
+    intro s hlen p
+    cases s with
+    | nil => rfl
+    | cons c cs =>
+      have hlen' : cs.length ≤ n := by simp only [List.length_cons] at hlen; omega
+      cases hm : matchAt T r p (c :: cs) with
+      | none => simp [passSafeGo, hm, ih cs hlen']
+      | some rest =>
+        obtain ⟨w, hw, hsw, hL, _, hsafeq, _⟩ := step_match T r r [] hr p (c :: cs) rest hm
+        rw [hsafeq]
+        have hrestlen : rest.length ≤ n := by
+          have h1 : (c :: cs).length = w.length + rest.length := by rw [hsw, List.length_append]
+          have h2 : 0 < w.length := List.length_pos_iff.mpr hw
+          simp only [List.length_cons] at hlen h1
+          omega
+        have h1 := L_startsB T r _ _ _ hL hs
+        rw [firstW_head, ← hsw] at h1
+        have h2 := L_endsB T r _ _ _ hL he
+        rw [lastW_lastOpt] at h2
+        rw [not_and_of_bne h1, not_and_of_bne h2, ih rest hrestlen]
+        rfl
+
+theorem passSafe_of_anchored (T : Tables) (r : Re) (hr : r.nullable = false)
+    (hs : startsB r = true) (he : endsB r = true) (s : List Nat) : passSafe T r s = true :=
+  passSafeGo_of_anchored T r hr hs he s.length s (Nat.le_refl _) none
+
+end Mv.Regex
+
+namespace Mv.Pii
+open Mv.Regex
+
+/-- executable form of `Inert` -/
+def inertB (T : Tables) (q : Re) (tok : List Nat) : Bool :=
+  match tok, lastOpt tok none with
+  | th :: _, some tl => rejects T th q && rejects T tl q && !T.isWord th && !T.isWord tl && !isMatch T q tok
+  | _, _ => false
+
+theorem inertB_sound (T : Tables) (q : Re) (tok : List Nat) (h : inertB T q tok = true) :
+    ∃ th tl tt, Inert T q tok th tl tt := by
+  unfold inertB at h
+  cases tok with
+  | nil => simp at h
+  | cons th tt =>
+    cases hl : lastOpt (th :: tt) none with
+    | none => rw [hl] at h; simp at h
+    | some tl =>
+      rw [hl] at h
+      simp only [Bool.and_eq_true, Bool.not_eq_true'] at h
+      exact ⟨th, tl, tt, ⟨rfl, hl, h.1.1.1.1, h.1.1.1.2, h.1.1.2, h.1.2, h.2⟩⟩
+
+/-- every pattern is well-formed and non-nullable, and every token is inert for every pattern -/
+def passesOKB (T : Tables) (passes : List (Re × List Nat)) : Bool :=
+  passes.all (fun p => p.1.wf && !p.1.nullable && passes.all (fun t => inertB T p.1 t.2))
+
+def PassesOK (T : Tables) (passes : List (Re × List Nat)) : Prop :=
+  ∀ p ∈ passes, p.1.wf = true ∧ p.1.nullable = false ∧ ∀ t ∈ passes, ∃ th tl tt, Inert T p.1 t.2 th tl tt
+
+theorem passesOKB_sound (T : Tables) (passes : List (Re × List Nat)) (h : passesOKB T passes = true) :
+    PassesOK T passes := by
+  intro p hp
+  simp only [passesOKB, List.all_eq_true, Bool.and_eq_true, Bool.not_eq_true'] at h
+  obtain ⟨⟨h1, h2⟩, h3⟩ := h p hp
+  exact ⟨h1, h2, fun t ht => inertB_sound T p.1 t.2 (h3 t ht)⟩
+
+/-- after boundary-safe passes no pattern of the family matches, if it did not match before or has its
+    own pass among them -/
+theorem maskWith_clean (T : Tables) (all : List (Re × List Nat)) (hok : PassesOK T all) :
+    ∀ (passes : List (Re × List Nat)), (∀ p ∈ passes, p ∈ all) → ∀ (s : List Nat),
+      safeWith T passes s = true → ∀ (q : Re) (tq : List Nat), (q, tq) ∈ all →
+      (isMatch T q s = false ∨ ∃ t, (q, t) ∈ passes) → isMatch T q (maskWith T passes s) = false := by
+  intro passes
+  induction passes with
+  | nil =>
+    intro _ s _ q tq _ h
+    rcases h with h | ⟨t, ht⟩
+    · exact h
+    · cases ht
+  | cons p ps ih =>
+    intro hsub s hsafe q tq hq h
+    obtain ⟨r, tok⟩ := p
+    simp only [safeWith, Bool.and_eq_true] at hsafe
+    have hrall : (r, tok) ∈ all := hsub _ (List.mem_cons_self ..)
+    obtain ⟨hrwf, hrn, hrin⟩ := hok (r, tok) hrall
+    obtain ⟨hqwf, hqn, hqin⟩ := hok (q, tq) hq
+    have hstep : maskWith T ((r, tok) :: ps) s = maskWith T ps (replaceAll T r tok s) := rfl
+    rw [hstep]
+    apply ih (fun p hp => hsub p (List.mem_cons_of_mem _ hp)) _ hsafe.2 q tq hq
+    have hnew : isMatch T q s = false → isMatch T q (replaceAll T r tok s) = false := by
+      intro h0
+      obtain ⟨th, tl, tt, hi⟩ := hqin (r, tok) hrall
+      cases h1 : isMatch T q (replaceAll T r tok s) with
+      | false => rfl
+      | true =>
+        have := pass_no_new_match T q r tok th tl tt hqwf hqn hrn hi s hsafe.1 h1
+        rw [h0] at this
+        cases this
+    rcases h with h | ⟨t, ht⟩
+    · exact Or.inl (hnew h)
+    · rcases List.mem_cons.mp ht with heq | hin
+      · left
+        have hqr : q = r := congrArg Prod.fst heq
+        subst hqr
+        obtain ⟨th, tl, tt, hi⟩ := hrin (q, tok) hrall
+        exact pass_removes_own T q tok th tl tt hrwf hrn hi s hsafe.1
+      · exact Or.inr ⟨t, hin⟩
+
+/-- `safeWith` only has to look at passes whose pattern is not `\b…\b` -/
+def safeWithU (T : Tables) : List (Re × List Nat) → List Nat → Bool
+  | [], _ => true
+  | p :: ps, s => ((startsB p.1 && endsB p.1) || passSafe T p.1 s) && safeWithU T ps (replaceAll T p.1 p.2 s)
+
+theorem safeWith_eq_U (T : Tables) : ∀ (passes : List (Re × List Nat)), (∀ p ∈ passes, p.1.nullable = false) →
+    ∀ s, safeWith T passes s = safeWithU T passes s
+  | [], _, _ => rfl
+  | p :: ps, hn, s => by
+    simp only [safeWith, safeWithU]
+    rw [safeWith_eq_U T ps (fun q hq => hn q (List.mem_cons_of_mem _ hq))]
+    cases hb : (startsB p.1 && endsB p.1) with
+    | false => simp
+    | true =>
+      simp only [Bool.and_eq_true] at hb
+      rw [passSafe_of_anchored T p.1 (hn p (List.mem_cons_self ..)) hb.1 hb.2]
+      simp
+
+end Mv.Pii
